@@ -276,6 +276,13 @@ def g_psblock_new(rng):
     return struct.pack("<i", len(ps)) + ps + struct.pack("<i", len(pd)) + pd
 
 
+def g_psblock_new_max(rng):
+    """variable-length particle system with every optional part (glow and blend)"""
+    ps = g_psys(rng)
+    pd = struct.pack("<I", rng.getrandbits(11) | 0x30000) + rng.randbytes(14) + rng.randbytes(2) + bytes([rng.randrange(10), rng.randrange(10)])
+    return struct.pack("<i", len(ps)) + ps + struct.pack("<i", len(pd)) + pd
+
+
 def g_extra(rng):
     types = [0x10, 0x20, 0x30, 0x40, 0x60, 0x70, 0x80, 0x90]
     chosen = rng.sample(types, rng.choice([0, 0, 1, 1, 2, 3, len(types)]))   # domain rule: a mapping, no type twice
@@ -357,9 +364,42 @@ def g_ta(rng):
         + g_f32(rng) + g_f32(rng) + g_f32(rng)
 
 
-def gen_payload(rng, flags, pcode, hi_bits=0):
+BOUNDARY_LENS = [0, 1, 254, 255, 256, 257, 511, 512, 513, 1000]
+
+
+def g_utf8_len(rng, n):
+    """valid UTF-8 without NUL of exactly n bytes"""
+    out = b""
+    while len(out) < n:
+        c = rng.choice(["a", "Z", " ", "/", ":", "%", "q", "7", "é", "日", "\U0001f600"]).encode("utf8")
+        if len(out) + len(c) <= n:
+            out += c
+    return out
+
+
+def g_extra_max(rng):
+    """every extra-param kind at its largest: flexi with user force, 255 render-material entries"""
+    ent = [(0x10, rng.randbytes(4) + g_f32(rng) + g_f32(rng) + g_f32(rng)), (0x20, rng.randbytes(4) + g_f32(rng) * 3),
+           (0x30, rng.randbytes(16) + b"\x05"), (0x40, rng.randbytes(16) + g_f32(rng) * 3), (0x60, rng.randbytes(16) + b"\x45"),
+           (0x70, struct.pack("<I", 1)), (0x80, bytes([255]) + b"".join(bytes([i]) + rng.randbytes(16) for i in range(255))),
+           (0x90, g_f32(rng) + g_f32(rng) + b"\x03")]
+    rng.shuffle(ent)
+    return bytes([len(ent)]) + b"".join(struct.pack("<HI", t, len(d)) + d for t, d in ent)
+
+
+def g_namevalue_long(rng):
+    lines = ["n%d STRING RW SV %s" % (i, g_utf8_len(rng, rng.choice([250, 256, 300, 600])).decode("utf8").replace("\n", " "))
+             for i in range(rng.choice([1, 2, 4]))]
+    return "\n".join(lines).encode("utf8")
+
+
+def gen_payload(rng, flags, pcode, hi_bits=0, text_len=None, url_len=None, big=False):
     """-> (payload, parts) with parts = [(field, framing, content|None, start offset)]."""
     raw = []
+    if text_len is None and rng.random() < 0.06:
+        text_len = rng.choice(BOUNDARY_LENS)
+    if url_len is None and rng.random() < 0.06:
+        url_len = rng.choice(BOUNDARY_LENS)
 
     def add(name, framing, content):
         raw.append((name, framing, content))
@@ -381,22 +421,24 @@ def gen_payload(rng, flags, pcode, hi_bits=0):
     add("ParentID", "fixed", rng.choice([bytes(4), rng.randbytes(4)]) if on("PARENT_ID") else None)
     add("TreeSpecies", "fixed", rng.randbytes(1) if on("TREE") else None)
     add("ScratchPad", "u32", rng.randbytes(rng.choice([0, 1, 2, 5, 40])) if on("SCRATCHPAD") else None)
-    add("Text", "nul", g_utf8(rng, rng.choice([0, 1, 3, 12])) if on("TEXT") else None)
+    add("Text", "nul", (g_utf8_len(rng, text_len) if text_len is not None else g_utf8(rng, rng.choice([0, 1, 3, 12])))
+        if on("TEXT") else None)
     add("TextColor", "fixed", rng.randbytes(4) if on("TEXT") else None)
-    add("MediaURL", "nul", g_utf8(rng, rng.choice([0, 1, 9])) if on("MEDIA_URL") else None)
+    add("MediaURL", "nul", (g_utf8_len(rng, url_len) if url_len is not None else g_utf8(rng, rng.choice([0, 1, 9])))
+        if on("MEDIA_URL") else None)
     add("PSBlock", "fixed", g_psblock_legacy(rng) if on("PARTICLES") else None)
-    add("ExtraParams", "xp", g_extra(rng))
+    add("ExtraParams", "xp", g_extra_max(rng) if big else g_extra(rng))
     s = on("SOUND")
     add("Sound", "fixed", rng.randbytes(16) if s else None)
     add("SoundGain", "fixed", g_f32(rng) if s else None)
     add("SoundFlags", "fixed", bytes([rng.getrandbits(6)]) if s else None)
     add("SoundRadius", "fixed", g_f32(rng) if s else None)
-    add("NameValue", "nul", g_namevalue(rng) if on("NAME_VALUES") else None)
+    add("NameValue", "nul", (g_namevalue_long(rng) if big or rng.random() < 0.05 else g_namevalue(rng)) if on("NAME_VALUES") else None)
     for n, w in PRIM:
         add(n, "fixed", rng.randbytes(w))
     add("TextureEntry", "u32", g_te(rng))
     add("TextureAnim", "u32", g_ta(rng) if on("TEXTURE_ANIM") else None)
-    add("PSBlockNew", "rest", g_psblock_new(rng) if on("PARTICLES_NEW") else None)
+    add("PSBlockNew", "rest", (g_psblock_new_max(rng) if big else g_psblock_new(rng)) if on("PARTICLES_NEW") else None)
     return _assemble(raw)
 
 
@@ -601,7 +643,7 @@ TRACE_CFG = ("SPECIFICATION TraceSpec\nCONSTANTS\n FlagWords = {0}\n HighBits = 
              " Product = FALSE\nPOSTCONDITION TraceAccepted\nCHECK_DEADLOCK FALSE\n")
 
 
-def _traces(chk: Check, per_flag: int, n_mut: int, n_empty: int):
+def _traces(chk: Check, per_flag: int, n_mut: int, n_empty: int, n_boundary: int):
     I = impl()
     rng = chk.rng
     names = FIELD_NAMES
@@ -621,6 +663,22 @@ def _traces(chk: Check, per_flag: int, n_mut: int, n_empty: int):
             meta.append({"flags": flags, "pcode": pcode, "mutation": "none"})
             if pcode in known:
                 pool.append((p, parts, flags, pcode))
+    # boundary lengths of the terminated / counted sections: each alone, together, and amid all other sections
+    T, U = 1 << FLAG["TEXT"], 1 << FLAG["MEDIA_URL"]
+    for rep in range(n_boundary):
+        for L in BOUNDARY_LENS:
+            for flags, kw in ((T, {"text_len": L}), (U, {"url_len": L}), (T | U, {"text_len": L, "url_len": L}),
+                              (2047, {"text_len": L, "url_len": BOUNDARY_LENS[(BOUNDARY_LENS.index(L) + 3) % len(BOUNDARY_LENS)]}),
+                              (rng.getrandbits(11) | T | U, {"text_len": rng.choice(BOUNDARY_LENS), "url_len": L})):
+                pcode = rng.choice(known)
+                p, parts = gen_payload(rng, flags, pcode, 0, **kw)
+                events.append(observe(I, names, p, True))
+                meta.append({"flags": flags, "pcode": pcode, "mutation": "none", "boundary": kw})
+        for flags in (0, 1 << FLAG["NAME_VALUES"], 1 << FLAG["PARTICLES_NEW"], 2047):
+            pcode = rng.choice(known)
+            p, parts = gen_payload(rng, flags, pcode, 0, big=True)
+            events.append(observe(I, names, p, True))
+            meta.append({"flags": flags, "pcode": pcode, "mutation": "none", "boundary": "max-size sections"})
     stats = {}
     for i in range(n_mut):
         p, parts, flags, pcode = pool[rng.randrange(len(pool))]
@@ -990,7 +1048,7 @@ def run(chk: Check):
     allv = [1] if quick else [1, 2, 3]
     # exhaustive model, in the background while rows are replayed
     mcs = [("all flag words", _mc_cfg("all", [0], [9], allv, False)),
-           ("kinds x junk flag bits x variants", _mc_cfg(sel, [0, 2048, 63488], known + unknown, [1, 2, 3], False))]
+           ("kinds x junk flag bits x variants", _mc_cfg(sel, [0, 2048, 63488], known + unknown, [1, 2, 3, 4], False))]
     if not quick:
         mcs.append(("variant product", _mc_cfg([2047, 1365], [0], [9], [1, 2, 3], True)))
     _SEEN.clear()
@@ -1003,11 +1061,11 @@ def run(chk: Check):
             for pc in kinds:
                 _replay_rows(chk, _export(chk, ("all", [0], [pc], allv, False), "all flag words pcode %d" % pc),
                              "all flag words")
-        _replay_rows(chk, _export(chk, (sel, [0, 2048, 63488], known + unknown, [1, 2, 3], False),
+        _replay_rows(chk, _export(chk, (sel, [0, 2048, 63488], known + unknown, [1, 2, 3, 4], False),
                                   "kinds x junk flag bits x variants"), "kinds x junk flag bits x variants")
         if not quick:
             _replay_rows(chk, _export(chk, ([2047, 1365, 682], [0], [47], [1, 3], True), "variant product"), "variant product")
-        _traces(chk, 1 if quick else 4, 1500 if quick else 12000, 120 if quick else 1200)
+        _traces(chk, 1 if quick else 4, 1500 if quick else 12000, 120 if quick else 1200, 1 if quick else 6)
         for lab, res in fut.result():
             chk.require_model_ok(res, "CompressedObj " + lab)
     _history(chk, "HPQuick" if quick else "HPThorough", 2)      # forks workers: only once no other thread is running
